@@ -24,6 +24,8 @@ from .. import facts as F
 from .c03 import PAIR, SIDES
 
 PROP = 'C07'
+from . import lemmas as _lemmas
+LEMMAS = [_lemmas.PROTOCOL, _lemmas.SOLVE]
 RULES = {'M1': 'off-diagonals non-positive', 'M2': 'row sums', 'M3': 'ghost elimination keeps the sign structure', 'M4': 'transient / sink diagonal and non-negative'}
 ASSUMPTIONS = ['D >= 0 on every face, alpha > 0, dt > 0, beta >= 0, faces increasing, r >= 0, sin(theta_p) > 0',
                'discretely divergence-free velocity for the range statement (row sum alpha/dt + beta + div u)',
